@@ -6,13 +6,13 @@ import random
 
 from common import hx, unhx
 
-SPECIAL = ["a", " ", "\t", "\n", "$", "`", '"', "'", "\\", "*", "?", "[", "]", "~", "#", ";", "&", "|", "(", ")", "<", ">", "{", "}", "!", "=", "é", ":", "-", "/", ".", "\r"]
+SPECIAL = ["a", " ", "\t", "\n", "$", "`", '"', "'", "\\", "*", "?", "[", "]", "~", "#", ";", "&", "|", "(", ")", "<", ">", "{", "}", "!", "=", "é", ":", "-", "/", ".", "\r", "^", "+", "%", ",", "@", "\ufffd"]
 
 
 class P:
     id = "C15"
     exhaustive = True
-    rule = ("exhaustive: every string of <= 3 (quick; 4 thorough) symbols over 32 special characters (CR among them) (blanks, newline, $ ` \" ' \\ * ? [ ] ~ # ; & | ( ) < > { } ! = "
+    rule = ("exhaustive: every string of <= 3 (quick; 4 thorough) symbols over 38 special characters (CR, ^ + % , @ and U+FFFD among them) (blanks, newline, $ ` \" ' \\ * ? [ ] ~ # ; & | ( ) < > { } ! = "
             "multi-byte : - / .); paths with . and .. components; random longer strings with multi-byte runes and newlines; each x 4 quoting styles x 5 ExpModes x 3 option sets x 4 IFS values; "
             "1/50 of them with matching files in the working directory. Non-trivial = length >= 1 with a special character; distinct strings counted")
     assumptions = ["strings are valid UTF-8 without NUL (the lexer reads runes)"]
